@@ -158,9 +158,33 @@ inductive SeenKey where
   | typed (v : Json)
   deriving Repr
 
+/-! equality of `_to_hashable_key` tuples: `(type(v), v)` for scalars (same Python type, then `==`), and
+    `(type(v), json-with-sorted-keys)` for dicts / lists — the serialisation tells `false` from `0`, so containers are
+    compared strictly (object key order ignored) -/
+mutual
+  def strictEq : Json → Json → Bool
+    | .null, .null => true
+    | .bool a, .bool b => a == b
+    | .num m e, .num m' e' => m == m' && e == e'
+    | .str a, .str b => a == b
+    | .arr xs, .arr ys => strictEqList xs ys
+    | .obj xs, .obj ys => xs.length == ys.length && strictEqKvs xs ys
+    | _, _ => false
+  def strictEqList : List Json → List Json → Bool
+    | [], [] => true
+    | x :: xs, y :: ys => strictEq x y && strictEqList xs ys
+    | _, _ => false
+  def strictEqKvs : List (String × Json) → List (String × Json) → Bool
+    | [], _ => true
+    | (k, x) :: xs, ys =>
+      (match Json.lookup k ys with
+       | some y => strictEq x y
+       | none => false) && strictEqKvs xs ys
+end
+
 def SeenKey.eq : SeenKey → SeenKey → Bool
   | .raw a, .raw b => pyEq a b
-  | .typed a, .typed b => pyType a == pyType b && pyEq a b
+  | .typed a, .typed b => pyType a == pyType b && strictEq a b
   | _, _ => false
 
 def seenHas (seen : List SeenKey) (k : SeenKey) : Bool := seen.any (SeenKey.eq k)
